@@ -15,7 +15,16 @@ Inductive serr :=
   | EWrap (p : bytes) (e : serr)
   | EHttp (st : Z) (e : serr)
   | EHttpNil (st : Z)
-  | EPlain (m : bytes).
+  | EPlain (m : bytes)
+  (* values of types that are not the library's (harness/cmd/c07/own.go): a type conforming to
+     ociregistry.Error (Code, Detail; Error() and Is in the registry convention the library's
+     WireError follows), one conforming to ociregistry.HTTPError around an inner error or nil,
+     one value conforming to both.  For errors.Is / errors.As by interface / Error() they are
+     the library's values; errors.As to the concrete *WireError does not find them. *)
+  | EOwn (w : werr)
+  | EOwnHttp (st : Z) (e : serr)
+  | EOwnHttpNil (st : Z)
+  | EOwnBoth (st : Z) (w : werr).
 
 Fixpoint to_gerr (e : serr) : gerr :=
   match e with
@@ -25,6 +34,20 @@ Fixpoint to_gerr (e : serr) : gerr :=
   | EHttp st e' => Http st (Some (to_gerr e')) false
   | EHttpNil st => Http st None false
   | EPlain m => Plain m
+  | EOwn w => Wire w
+  | EOwnHttp st e' => Http st (Some (to_gerr e')) false
+  | EOwnHttpNil st => Http st None false
+  | EOwnBoth st w => Http st (Some (Wire w)) false
+  end.
+
+(* errors.As(err, &we) with we of the concrete type *WireError, on the original value: the
+   Message field a caller can read.  Own types are not found. *)
+Fixpoint smsg (e : serr) : option bytes :=
+  match e with
+  | EStd t => Some (std_msg t)
+  | EWire w => Some (w_msg w)
+  | EWrap _ e' | EHttp _ e' | EOwnHttp _ e' => smsg e'
+  | EHttpNil _ | EOwnHttpNil _ | EPlain _ | EOwn _ | EOwnBoth _ _ => None
   end.
 
 (* carriers: the client call sequence + the point of the innermost backend that fails
@@ -56,7 +79,7 @@ Inductive carrier :=
 
 (* the server configuration of the chain (harness/cmd/c07/chain.go); the model does not depend
    on it: that is the property's claim *)
-Inductive config := KDefault | KQuirks.
+Inductive config := KDefault | KQuirks | KAuth.
 
 (* every level is a HEAD request *)
 Definition carrier_head (c : carrier) : bool :=
@@ -236,11 +259,23 @@ Fixpoint all_calls (f : nat -> callobs -> bool) (k : nat) (l : list callobs) : b
   | o :: r => f k o && all_calls f (S k) r
   end.
 
-Definition model_agrees (c : case) : bool :=
+Definition model_agrees_core (c : case) : bool :=
   let e := to_gerr (c_err c) in
   view_eqb (c_v0 c) (mview e) &&
   match c_calls c with [] => false | _ => true end &&
   all_calls (call_agrees (c_carrier c) e) 1 (c_calls c).
+
+(* The original value may be of a type of the harness's own: what errors.As to the concrete
+   *WireError finds on it is [smsg]; every other observable is that of the library value
+   [to_gerr] maps it to. *)
+Definition set_msg (v : view) (m : option bytes) : view :=
+  {| v_is := v_is v; v_status := v_status v; v_resp := v_resp v; v_code := v_code v;
+     v_detail := v_detail v; v_msg := m; v_text := v_text v |}.
+
+Definition fix_v0 (c : case) : case :=
+  {| c_err := c_err c; c_config := c_config c; c_carrier := c_carrier c; c_field := c_field c;
+     c_v0 := set_msg (c_v0 c) (cmsg (to_gerr (c_err c))); c_calls := c_calls c |}.
+
 
 (* ---------------------------------------------------------------- the specification *)
 
@@ -412,6 +447,72 @@ Definition finding_of (c : case) : finding :=
 
 Definition known_case (c : case) : bool :=
   match finding_of c with KNone => false | _ => true end.
+
+
+(* ---------------------------------------------------------------- text the client originates *)
+
+(* When a response is above the client's limit the CLIENT originates an error text of its own
+   (makeError's "error body too large").  That prose is not the backend's and the property does
+   not fix it: in a call that has such a level, the three places it shows up in (Error() text,
+   the *WireError message the caller finds, the message the next server writes) are not compared
+   with the model's literal spelling; [stable] states what the property does say about it: once
+   it is on the wire the caller finds exactly the wire message, the same at every further level
+   (no accumulation), and it does not carry the oversize body along. *)
+Definition set_prose (v : view) (m : option bytes) (t : bytes) : view :=
+  {| v_is := v_is v; v_status := v_status v; v_resp := v_resp v; v_code := v_code v;
+     v_detail := v_detail v; v_msg := m; v_text := t |}.
+
+Definition scrub_call (C : carrier) (e : gerr) (co : callobs) : callobs :=
+  match co with
+  | OBad _ => co
+  | OCall o =>
+      if lens_ok o || carrier_head C then co
+      else let p := path C (o_lens o) in
+           let mv := mview (hops sp cp p e) in
+           OCall {| o_lens := o_lens o; o_wstatus := o_wstatus o; o_wcode := o_wcode o;
+                    o_wmsg := w_msg (r_err (last_wire p e)); o_wdetail := o_wdetail o;
+                    o_view := set_prose (o_view o) (v_msg mv) (v_text mv) |}
+  end.
+
+Definition scrub_case (c : case) : case :=
+  {| c_err := c_err c; c_config := c_config c; c_carrier := c_carrier c; c_field := c_field c;
+     c_v0 := c_v0 c;
+     c_calls := map (scrub_call (c_carrier c) (to_gerr (c_err c))) (c_calls c) |}.
+
+(* 1-based index of the first level whose response is above the limit *)
+Fixpoint first_big (lens : list Z) (i : nat) : option nat :=
+  match lens with
+  | [] => None
+  | n :: r => if Z.ltb 8192 n then Some i else first_big r (S i)
+  end.
+
+(* a level above the first oversize one answered in this call *)
+Definition past_big (co : callobs) : bool :=
+  match co with
+  | OCall o => match first_big (o_lens o) 1 with
+               | Some j => Nat.ltb j (length (o_lens o))
+               | None => false
+               end
+  | OBad _ => false
+  end.
+
+Definition stable (c : case) : bool :=
+  opwrap (c_carrier c) || has_heads (c_carrier c) ||
+  let past := filter past_big (c_calls c) in
+  match past with
+  | OCall o1 :: _ =>
+      forallb (fun co => match co with
+                         | OCall o => optb_eqb (v_msg (o_view o)) (Some (o_wmsg o)) &&
+                                      beqb (o_wmsg o) (o_wmsg o1) &&
+                                      Z.ltb (Z.of_nat (length (o_wmsg o))) 8192
+                         | OBad _ => true
+                         end) past
+  | _ => true
+  end.
+
+Definition model_agrees (c : case) : bool :=
+  optb_eqb (v_msg (c_v0 c)) (smsg (c_err c)) && stable c &&
+  model_agrees_core (scrub_case (fix_v0 c)).
 
 (* a case exercises its clause when the error crosses at least two hops and the clause has
    something to lose: a status that is not the default 500 (table row or own status), an
@@ -991,10 +1092,10 @@ Proof.
     (is e SRangeInvalid); cbn in *; congruence.
 Qed.
 
-Lemma corr_sound c : model_agrees c = true -> obs_ok c = true \/ known_case c = true.
+Lemma corr_sound_core c : model_agrees_core c = true -> obs_ok c = true \/ known_case c = true.
 Proof.
   destruct c as [se K C f v0 calls].
-  unfold model_agrees, obs_ok, known_case, finding_of, oversize, ambig416, first_msg, mixed_msg, field_ok_call.
+  unfold model_agrees_core, obs_ok, known_case, finding_of, oversize, ambig416, first_msg, mixed_msg, field_ok_call.
   cbn [c_err c_config c_carrier c_field c_v0 c_calls].
   set (e := to_gerr se). intros H.
   apply andb_true_iff in H as [H Hall]. apply andb_true_iff in H as [Hv0 Hne].
@@ -1078,4 +1179,91 @@ Proof.
     destruct (carrier_head C) eqn:Hh; [now left|right].
     unfold has_heads in Hhs. rewrite Hh in Hhs. cbn [orb] in Hhs. rewrite Hhs in Em. cbn [andb] in Em.
     apply (existsb_false_In _ _ _ Em) in Hin. now apply negb_false_iff in Hin.
+Qed.
+
+(* the specification and the findings never read the original's *WireError message *)
+Lemma obs_ok_fix c : obs_ok (fix_v0 c) = obs_ok c.
+Proof. destruct c as [se K C f v0 calls]. destruct f; reflexivity. Qed.
+
+Lemma known_case_fix c : known_case (fix_v0 c) = known_case c.
+Proof. destruct c as [se K C f v0 calls]. destruct f; reflexivity. Qed.
+
+(* ... and, outside the message clause, none of the places client-originated text shows up in *)
+Lemma scrub_lens C e o o' : scrub_call C e (OCall o) = OCall o' -> o_lens o' = o_lens o.
+Proof.
+  unfold scrub_call. destruct (lens_ok o || carrier_head C); intros H; injection H as <-; reflexivity.
+Qed.
+
+Lemma oversize_scrub c : oversize (scrub_case c) = oversize c.
+Proof.
+  destruct c as [se K C f v0 calls]. unfold oversize, scrub_case. cbn [c_calls c_carrier c_err].
+  induction calls as [|co l IH]; [reflexivity|]. cbn [map existsb]. rewrite IH. f_equal.
+  destruct co as [o|b]; [|reflexivity]. unfold scrub_call.
+  destruct (lens_ok o || carrier_head C); reflexivity.
+Qed.
+
+Lemma ambig416_scrub c : ambig416 (scrub_case c) = ambig416 c.
+Proof.
+  destruct c as [se K C f v0 calls]. unfold ambig416, scrub_case. cbn [c_calls c_carrier c_err c_v0].
+  destruct calls as [|[o|b] l]; try reflexivity. cbn [map]. unfold scrub_call.
+  destruct (lens_ok o || carrier_head C); reflexivity.
+Qed.
+
+Lemma known_case_scrub c : known_case (scrub_case c) = known_case c.
+Proof.
+  unfold known_case, finding_of. rewrite oversize_scrub, ambig416_scrub.
+  destruct c as [se K C f v0 calls]. reflexivity.
+Qed.
+
+Lemma scrub_id C e calls :
+  carrier_head C = true \/
+  existsb (fun o => match o with OCall o => negb (lens_ok o) | OBad _ => false end) calls = false ->
+  map (scrub_call C e) calls = calls.
+Proof.
+  intros H. induction calls as [|co l IH]; [reflexivity|]. cbn [map]. rewrite IH.
+  - f_equal. destruct co as [o|b]; [|reflexivity]. unfold scrub_call. destruct H as [->|H].
+    + now rewrite orb_true_r.
+    + cbn [existsb] in H. apply orb_false_iff in H as [H _]. apply negb_false_iff in H. now rewrite H.
+  - destruct H as [H|H]; [now left|right]. cbn [existsb] in H. now apply orb_false_iff in H as [_ H].
+Qed.
+
+Lemma field_ok_scrub c co :
+  c_field c <> FMessage ->
+  field_ok_call (scrub_case c) (scrub_call (c_carrier c) (to_gerr (c_err c)) co) = field_ok_call c co.
+Proof.
+  destruct c as [se K C f v0 calls]. cbn [c_field c_carrier c_err]. intros Hf.
+  destruct co as [o|b]; [|reflexivity]. unfold scrub_call.
+  destruct (lens_ok o || carrier_head C); destruct f; try reflexivity; contradiction.
+Qed.
+
+Lemma forallb_map_ext {A B} (f : B -> bool) (g : A -> bool) (h : A -> B) l :
+  (forall a, f (h a) = g a) -> forallb f (map h l) = forallb g l.
+Proof. intros E. induction l as [|a l IH]; cbn; [reflexivity | now rewrite E, IH]. Qed.
+
+Lemma obs_ok_scrub c :
+  obs_ok (scrub_case c) = true \/ known_case (scrub_case c) = true ->
+  obs_ok c = true \/ known_case c = true.
+Proof.
+  rewrite known_case_scrub. intros [H|H]; [|now right].
+  destruct (known_case c) eqn:Ek; [now right|left].
+  destruct (c_field c) eqn:Ef.
+  1-3,5: (unfold obs_ok in *; cbn [scrub_case c_calls] in H;
+    apply andb_true_iff in H as [Hne H]; apply andb_true_iff; split;
+    [ now destruct (c_calls c)
+    | rewrite <- H; symmetry; apply forallb_map_ext;
+      intros co; apply field_ok_scrub; congruence ]).
+  (* message: a case that is not a recorded finding has no oversize level, or is a HEAD carrier *)
+  assert (Hid : scrub_case c = c).
+  { destruct c as [se K C f v0 calls]. cbn [c_field] in Ef. subst f.
+    unfold known_case, finding_of in Ek. cbn [c_field c_carrier] in Ek.
+    unfold scrub_case. cbn [c_err c_config c_carrier c_field c_v0 c_calls]. f_equal.
+    apply scrub_id. destruct (carrier_head C); [now left|right].
+    unfold oversize in Ek. cbn [c_calls] in Ek. destruct (existsb _ calls); [discriminate Ek | reflexivity]. }
+  now rewrite Hid in H.
+Qed.
+
+Lemma corr_sound c : model_agrees c = true -> obs_ok c = true \/ known_case c = true.
+Proof.
+  unfold model_agrees. intros H. apply andb_true_iff in H as [_ H].
+  apply corr_sound_core, obs_ok_scrub in H. now rewrite obs_ok_fix, known_case_fix in H.
 Qed.
